@@ -11,17 +11,32 @@ R1  dispatch exhaustiveness (T-AGREE, finite): every dispatch over a method
 R2  guarded key reads (T-GUARD): a subscript read m[Species.K] of a species map
     whose keys depend on configuration is dominated by `Species.K in m`, by a
     configuration guard under which the producer inserts K, or (for a map built
-    in the same function) by an unconditional store of that key.
+    in the same function) by an unconditional store of that key; a read under
+    a variable key is safe when the key walks the map's own keys (`for k in m`,
+    `.keys()`, `for k, v in m.items()`, also inside list()/sorted(), statement
+    or comprehension) or the keys of a mapping for whose every key an earlier
+    loop stored into m.
 R3  switched-off species stay out: every store indices[Species.K] = … in the
     trajectory and LTO producers is control-dependent (in the function or at
     all its call sites) on a fact implying K's switch is on, or stores a
-    literal zero.  The implication table is derived from
-    EmissionsConfig.enabled_species.
+    literal zero.  A store under a variable key needs `key in enabled_species`,
+    or a key that is already in the map (the value reads the map at that key,
+    or the key walks the map's own keys), or a key that walks the result of a
+    helper which itself inserts every species only under its switch.
+    The implication table (species -> `<label>_enabled` switch, plus further
+    conditions) is computed by evaluating EmissionsConfig.enabled_species over
+    a concrete domain of Species members / strings / literal collections with
+    configuration reads kept symbolic: literal loops unrolled, local closures
+    entered with their arguments bound, early return / continue turned into
+    path conditions - so it does not depend on how the groups are spelt
+    (repeated calls, a table and a loop, plain ifs, add / update / |=).
 R4  element type of thrust-mode arrays: iterating a ThrustModeArray yields raw
     values; attributes that exist only on ThrustMode may be used only on
     ThrustMode(x) / as_enum() elements.
 R5  source switches: a component is summed into the totals under the same
     configuration switch that decides whether it is computed.
+R6  switches: every `<label>_enabled` the table reads exists on EmissionsConfig,
+    and a species that has a switch of its own is enabled by that switch.
 """
 
 from __future__ import annotations
@@ -29,8 +44,8 @@ from __future__ import annotations
 import ast
 
 from ..astutil import first_stmt, last_stmt  # noqa: F401
-from ..astutil import (ancestors, call_name, calls_in, conjuncts, guards_of, names_in, norm,
-                       single_def_value, stmt_of, stores_to, walk_no_nested)
+from ..astutil import (ancestors, call_name, calls_in, conjuncts, enclosing_iterations, guards_of, iterated_mapping, map_iteration,
+                       names_in, norm, single_def_value, stmt_of, stores_to, walk_no_nested)
 from ..loader import ClassInfo, FunctionInfo
 from ..resolve import callers_of, expr_class, resolve_call
 
@@ -80,30 +95,313 @@ def facts_at(fn: ast.AST, node: ast.AST):
     return atoms
 
 
+class _Cannot(Exception):
+    pass
+
+
+class _Sym:
+    """a value the table interpreter does not know concretely (a configuration read, …)"""
+
+    def __init__(self, text):
+        self.text = text
+
+
+class _SpeciesSetInterp:
+    """Evaluates the body of `enabled_species` over a small concrete domain - Species members, strings, None,
+    tuples / lists / dicts of those - keeping every test on configuration state symbolic.  Literal loops are
+    unrolled, local closures are entered with their arguments bound (positional, *rest, keyword, defaults),
+    early returns turn into path conditions.  The outcome is, for each species put into the returned set
+    (`.add`, `.update`, `|=`, set displays), the list of symbolic conditions on its path.  Whatever falls outside
+    (a loop over something not literal, an unknown statement) raises _Cannot - the rule is then undecided."""
+
+    def __init__(self, fn: ast.AST):
+        self.fn = fn
+        self.out: list[tuple[str, tuple[tuple[str, bool], ...]]] = []
+        rets = [r.value for r in walk_no_nested(fn) if isinstance(r, ast.Return) and r.value is not None]
+        if not rets or not all(isinstance(r, ast.Name) for r in rets) or len({r.id for r in rets}) != 1:
+            raise _Cannot('the property does not return one named set')
+        self.result = rets[0].id
+
+    # ---- expressions
+    def ev(self, e, env):
+        if isinstance(e, ast.Constant):
+            return e.value
+        if isinstance(e, ast.Attribute) and isinstance(e.value, ast.Name) and e.value.id == 'Species':
+            return ('sp', e.attr)
+        if isinstance(e, ast.Name):
+            return env[e.id] if e.id in env else _Sym(e.id)
+        if isinstance(e, (ast.Tuple, ast.List, ast.Set)):
+            out = []
+            for x in e.elts:
+                if isinstance(x, ast.Starred):
+                    v = self.ev(x.value, env)
+                    if not isinstance(v, (tuple, list)):
+                        raise _Cannot(f'cannot unpack `{norm(x)}`')
+                    out.extend(v)
+                else:
+                    out.append(self.ev(x, env))
+            return tuple(out)
+        if isinstance(e, ast.Dict):
+            if any(k is None for k in e.keys):
+                raise _Cannot('dict unpacking')
+            return {self._hashable(self.ev(k, env)): self.ev(v, env) for k, v in zip(e.keys, e.values)}
+        if isinstance(e, ast.Subscript):
+            b, i = self.ev(e.value, env), self.ev(e.slice, env) if not isinstance(e.slice, ast.Slice) else None
+            if isinstance(b, (tuple, list)) and isinstance(i, int) and -len(b) <= i < len(b):
+                return b[i]
+            if isinstance(b, dict) and not isinstance(i, _Sym) and i in b:
+                return b[i]
+            return _Sym(norm(e))
+        if isinstance(e, ast.Attribute):
+            b = self.ev(e.value, env)
+            if isinstance(b, tuple) and len(b) == 2 and b[0] == 'sp' and e.attr == 'name':
+                return b[1]
+            return _Sym(norm(e))
+        if isinstance(e, ast.JoinedStr):
+            parts = []
+            for x in e.values:
+                v = self.ev(x.value, env) if isinstance(x, ast.FormattedValue) else x.value
+                if not isinstance(v, str) or (isinstance(x, ast.FormattedValue) and (x.conversion != -1 or x.format_spec)):
+                    return _Sym(norm(e))
+                parts.append(v)
+            return ''.join(parts)
+        if isinstance(e, ast.Call):
+            f = e.func
+            if isinstance(f, ast.Attribute) and not e.args and not e.keywords and f.attr in ('lower', 'upper', 'items', 'keys', 'values'):
+                b = self.ev(f.value, env)
+                if isinstance(b, str) and f.attr in ('lower', 'upper'):
+                    return getattr(b, f.attr)()
+                if isinstance(b, dict) and f.attr in ('items', 'keys', 'values'):
+                    return tuple(getattr(b, f.attr)()) if f.attr != 'items' else tuple((k, v) for k, v in b.items())
+                return _Sym(norm(e))
+            if isinstance(f, ast.Name) and f.id == 'getattr' and len(e.args) == 2 and norm(e.args[0]) == 'self':
+                a = self.ev(e.args[1], env)
+                return _Sym(f'self.{a}') if isinstance(a, str) else _Sym(norm(e))
+            if isinstance(f, ast.Name) and f.id in ('tuple', 'list', 'set', 'frozenset', 'sorted') and len(e.args) <= 1 and not e.keywords:
+                if not e.args:
+                    return ()
+                v = self.ev(e.args[0], env)
+                return tuple(v) if isinstance(v, (tuple, list)) else _Sym(norm(e))
+            return _Sym(norm(e))
+        if isinstance(e, ast.Compare) and len(e.ops) == 1 and isinstance(e.ops[0], (ast.Is, ast.IsNot, ast.Eq, ast.NotEq)):
+            l, r = self.ev(e.left, env), self.ev(e.comparators[0], env)
+            if not isinstance(l, _Sym) and not isinstance(r, _Sym):
+                eq = l == r
+                return eq if isinstance(e.ops[0], (ast.Is, ast.Eq)) else not eq
+            return _Sym(norm(e))
+        if isinstance(e, ast.UnaryOp) and isinstance(e.op, ast.Not):
+            v = self.ev(e.operand, env)
+            return _Sym(norm(e)) if isinstance(v, _Sym) else (not v)
+        if isinstance(e, ast.UnaryOp) and isinstance(e.op, ast.USub):
+            v = self.ev(e.operand, env)
+            return -v if isinstance(v, int) and not isinstance(v, bool) else _Sym(norm(e))
+        return _Sym(norm(e))
+
+    @staticmethod
+    def _hashable(v):
+        if isinstance(v, _Sym):
+            raise _Cannot('symbolic dict key')
+        return v
+
+    def _test_text(self, test, env):
+        """text of a symbolic test with what is concretely known substituted (getattr(self, f'{label}_enabled')
+        -> self.co2_enabled); a leading `not` is peeled into the polarity"""
+        pol = True
+        while isinstance(test, ast.UnaryOp) and isinstance(test.op, ast.Not):
+            test, pol = test.operand, not pol
+        v = self.ev(test, env)
+        return (v.text if isinstance(v, _Sym) else norm(test)), pol
+
+    # ---- statements
+    def record(self, v, guards):
+        if isinstance(v, tuple) and len(v) == 2 and v[0] == 'sp' and isinstance(v[1], str):
+            self.out.append((v[1], tuple(guards)))
+        else:
+            raise _Cannot('something that is not a Species member is put into the set')
+
+    def record_all(self, v, guards):
+        if isinstance(v, tuple) and len(v) == 2 and v[0] == 'sp' and isinstance(v[1], str):
+            raise _Cannot('a single member where a collection is expected')
+        if not isinstance(v, (tuple, list)):
+            raise _Cannot('the collection added to the set is not known')
+        for x in v:
+            self.record(x, guards)
+
+    def call(self, c: ast.Call, env, guards):
+        f = c.func
+        if isinstance(f, ast.Attribute) and norm(f.value) == self.result:
+            if f.attr == 'add' and len(c.args) == 1:
+                return self.record(self.ev(c.args[0], env), guards)
+            if f.attr == 'update':
+                for a in c.args:
+                    self.record_all(self.ev(a, env), guards)
+                return
+            raise _Cannot(f'`{norm(c)[:50]}` on the result set')
+        if isinstance(f, ast.Name) and isinstance(env.get(f.id), ast.FunctionDef):
+            d = env[f.id]
+            a = d.args
+            pos = []
+            for x in c.args:
+                if isinstance(x, ast.Starred):
+                    v = self.ev(x.value, env)
+                    if not isinstance(v, (tuple, list)):
+                        raise _Cannot(f'cannot unpack `{norm(x)}`')
+                    pos.extend(v)
+                else:
+                    pos.append(self.ev(x, env))
+            new = dict(env)
+            names = [p.arg for p in a.posonlyargs + a.args]
+            defaults = dict(zip(names[len(names) - len(a.defaults):], a.defaults))
+            for i, nme in enumerate(names):
+                if i < len(pos):
+                    new[nme] = pos[i]
+                elif nme in defaults:
+                    new[nme] = self.ev(defaults[nme], env)
+            rest = pos[len(names):]
+            if a.vararg is not None:
+                new[a.vararg.arg] = tuple(rest)
+            elif rest:
+                raise _Cannot('too many arguments')
+            for p, dflt in zip(a.kwonlyargs, a.kw_defaults):
+                if dflt is not None:
+                    new[p.arg] = self.ev(dflt, env)
+            for k in c.keywords:
+                if k.arg is None:
+                    raise _Cannot('**kwargs')
+                new[k.arg] = self.ev(k.value, env)
+            self.block(d.body, new, list(guards))
+            return
+        if any(isinstance(x, ast.Name) and x.id == self.result for x in ast.walk(c)):
+            raise _Cannot(f'the result set escapes into `{norm(c)[:50]}`')
+        # any other call cannot change the set
+
+    def block(self, stmts, env, guards):
+        """runs stmts; 'return' / 'continue' when every path through them left that way, None when some path falls
+        through (the paths that left are then excluded by the path condition)"""
+        for i, st in enumerate(stmts):
+            if isinstance(st, (ast.Pass, ast.Global, ast.Nonlocal, ast.Import, ast.ImportFrom)):
+                continue
+            if isinstance(st, ast.FunctionDef):
+                env[st.name] = st
+            elif isinstance(st, ast.Return):
+                return 'return'
+            elif isinstance(st, ast.Continue):
+                return 'continue'
+            elif isinstance(st, ast.Expr):
+                if isinstance(st.value, ast.Call):
+                    self.call(st.value, env, guards)
+                elif not isinstance(st.value, ast.Constant):
+                    raise _Cannot(f'statement `{norm(st)[:50]}`')
+            elif isinstance(st, (ast.Assign, ast.AnnAssign)):
+                tg = st.targets if isinstance(st, ast.Assign) else [st.target]
+                if st.value is None:
+                    continue
+                if len(tg) != 1 or not isinstance(tg[0], ast.Name):
+                    raise _Cannot(f'assignment `{norm(st)[:50]}`')
+                if tg[0].id == self.result:
+                    v = st.value
+                    if isinstance(v, ast.Call) and call_name(v) in ('set', 'frozenset') and not v.args:
+                        continue
+                    if isinstance(v, ast.Set) or (isinstance(v, ast.Call) and call_name(v) == 'set' and len(v.args) == 1):
+                        self.record_all(self.ev(v if isinstance(v, ast.Set) else v.args[0], env), guards)
+                        continue
+                    raise _Cannot(f'the result set is rebound: `{norm(st)[:50]}`')
+                env[tg[0].id] = self.ev(st.value, env)
+            elif isinstance(st, ast.AugAssign):
+                if isinstance(st.target, ast.Name) and st.target.id == self.result and isinstance(st.op, ast.BitOr):
+                    self.record_all(self.ev(st.value, env), guards)
+                elif isinstance(st.target, ast.Name):
+                    env[st.target.id] = _Sym(st.target.id)
+                else:
+                    raise _Cannot(f'statement `{norm(st)[:50]}`')
+            elif isinstance(st, ast.For):
+                seq = self.ev(st.iter, env)
+                if isinstance(seq, dict):
+                    seq = tuple(seq)
+                if not isinstance(seq, (tuple, list)) or st.orelse:
+                    raise _Cannot(f'loop over `{norm(st.iter)[:50]}`, which is not a literal collection')
+                for item in seq:
+                    if isinstance(st.target, ast.Name):
+                        env[st.target.id] = item
+                    elif isinstance(st.target, (ast.Tuple, ast.List)) and isinstance(item, (tuple, list)) \
+                            and len(item) == len(st.target.elts) and all(isinstance(x, ast.Name) for x in st.target.elts):
+                        for x, v in zip(st.target.elts, item):
+                            env[x.id] = v
+                    else:
+                        raise _Cannot(f'loop target `{norm(st.target)}`')
+                    if any(isinstance(x, ast.Break) for x in walk_no_nested(st)):
+                        raise _Cannot('break in a loop')
+                    if self.block(st.body, env, guards) == 'return':
+                        return 'return'
+            elif isinstance(st, ast.If):
+                v = self.ev(st.test, env)
+                if not isinstance(v, _Sym):
+                    r = self.block(st.body if v else st.orelse, env, guards)
+                    if r:
+                        return r
+                    continue
+                g_true = [self._test_text(ast.UnaryOp(ast.Not(), t) if not p else t, env) for t, p in conjuncts(st.test, True)]
+                g_false = [self._test_text(ast.UnaryOp(ast.Not(), t) if not p else t, env) for t, p in conjuncts(st.test, False)]
+                e1, e2 = dict(env), dict(env)
+                r1 = self.block(st.body, e1, guards + g_true)
+                r2 = self.block(st.orelse, e2, guards + g_false)
+                if r1 and r2:
+                    if r1 != r2:
+                        raise _Cannot('one branch returns and the other continues')
+                    return r1
+                if r1 or r2:
+                    merged = e2 if r1 else e1          # only the branch that falls through goes on
+                else:
+                    merged = {k: (e1[k] if k in e1 and k in e2 and e1[k] is e2[k] else _Sym(k)) for k in set(e1) | set(e2)}
+                env.clear()
+                env.update(merged)
+                if r1:
+                    guards = guards + g_false
+                elif r2:
+                    guards = guards + g_true
+            else:
+                raise _Cannot(f'statement `{norm(st)[:50]}`')
+        return None
+
+
 def implication_table(ctx):
-    """group label -> species, from EmissionsConfig.enabled_species"""
+    """group label -> species, from EmissionsConfig.enabled_species: which `<label>_enabled` switch (and which
+    further condition) each species needs to get into the set - computed from what the property *does*, not from
+    how its calls are spelt."""
     m = ctx.prog.module(CFGE)
     fi = m.func('EmissionsConfig.enabled_species')
     groups = {}
-    for c in calls_in(fi.node):
-        if call_name(c) == 'add' and c.args:
-            sp = [a.attr for a in c.args if isinstance(a, ast.Attribute) and norm(a.value) == 'Species']
-            label = None
-            for k in c.keywords:
-                if k.arg == 'label' and isinstance(k.value, ast.Constant):
-                    label = k.value.value
-            if label is None:
-                label = sp[0].lower()
-            extra = [norm(t) for t, pol, _ in guards_of(c)]
-            groups.setdefault(label, {'species': set(), 'conditional': {}})
-            for s in sp:
-                if extra:
-                    groups[label]['conditional'][s] = extra
-                else:
-                    groups[label]['species'].add(s)
+    try:
+        it = _SpeciesSetInterp(fi.node)
+        it.block(fi.node.body, {}, [])
+    except _Cannot as e:
+        ctx.undecided('C11-R3/table', fi, 'enabled_species', f'cannot evaluate which species each switch enables: {e}')
+    by_sp: dict[str, list] = {}
+    for sp, guards in it.out:
+        by_sp.setdefault(sp, []).append(guards)
+    for sp, paths in by_sp.items():
+        if len(paths) != 1:
+            ctx.undecided('C11-R3/table', fi, f'Species.{sp}', f'added on {len(paths)} different paths')
+        sw = [(t, pol) for t, pol in paths[0] if t.startswith('self.') and t.endswith('_enabled')
+              and t[len('self.'):].isidentifier()]
+        extra = [('' if pol else 'not ') + t for t, pol in paths[0] if (t, pol) not in sw]
+        if len(sw) != 1 or not sw[0][1]:
+            ctx.undecided('C11-R3/table', fi, f'Species.{sp}',
+                          f'enabled under {[("" if p else "not ") + t for t, p in paths[0]]}: not exactly one `<label>_enabled` switch')
+        label = sw[0][0][len('self.'):-len('_enabled')]
+        groups.setdefault(label, {'species': set(), 'conditional': {}})
+        if extra:
+            groups[label]['conditional'][sp] = extra
+        else:
+            groups[label]['species'].add(sp)
     # R6: a species that has a switch of its own must be enabled by that switch
     ec = m.cls('EmissionsConfig')
     own = set(ec.all_fields()) | set(ec.methods)
+    for label in sorted(groups):
+        if f'{label}_enabled' not in own:
+            ctx.ob('C11-R6', fi, f'switch `{label}_enabled` exists', False,
+                   f'enabled_species reads `self.{label}_enabled`, which EmissionsConfig does not have: every use of '
+                   f'enabled_species fails with AttributeError', line=fi.node.lineno)
     for label, g in sorted(groups.items()):
         for sp in sorted(g['species'] | set(g['conditional'])):
             mine = f'{sp.lower()}_enabled'
@@ -275,6 +573,18 @@ def _dispatch_verdict(ctx, fi, node, attr, members, handled, default_body):
                line=node.lineno)
 
 
+def _governing(node, keyvar: str):
+    """the iteration that binds `keyvar` around node: (owner, map_iteration result or None, iter expr).  The
+    key variable may be the loop target itself (`for k in …`) or the key half of `for k, v in m.items()`."""
+    for owner, tgt, it in enclosing_iterations(node):
+        mi = map_iteration(tgt, it)
+        if mi is not None and mi[1] == keyvar:
+            return owner, mi, it
+        if mi is None and isinstance(tgt, ast.Name) and tgt.id == keyvar:
+            return owner, None, it
+    return None
+
+
 # ---------------------------------------------------------------- R2 -----
 def rule_reads(ctx, groups):
     prog = ctx.prog
@@ -324,30 +634,33 @@ def rule_reads(ctx, groups):
                                 and st.lineno < x.lineno and st in fi.node.body:
                             ok, why = True, f'key stored unconditionally at line {st.lineno}'
                     # an earlier top-level loop stored the key: over a literal list containing it,
-                    # or over the same iterable this read's loop walks
-                    my_loop = next((a for a in ancestors(x) if isinstance(a, ast.For) and norm(a.target) == ktxt), None)
+                    # or over the same mapping this read's loop walks
+                    mine = _governing(x, ktxt)
+                    my_loop = mine[0] if mine else None
                     for s0 in fi.node.body:
                         if isinstance(s0, ast.For) and s0.lineno < x.lineno and s0 is not my_loop:
-                            lv = norm(s0.target)
-                            stores_lv = any(isinstance(b, ast.Assign) and isinstance(b.targets[0], ast.Subscript)
-                                            and norm(b.targets[0].value) == btxt and norm(b.targets[0].slice) == lv
-                                            for b in s0.body)
+                            mi0 = map_iteration(s0.target, s0.iter)
+                            lv = mi0[1] if mi0 else (s0.target.id if isinstance(s0.target, ast.Name) else None)
+                            stores_lv = lv is not None and any(
+                                isinstance(b, ast.Assign) and isinstance(b.targets[0], ast.Subscript)
+                                and norm(b.targets[0].value) == btxt and norm(b.targets[0].slice) == lv for b in s0.body)
                             if not stores_lv:
                                 continue
-                            if isinstance(s0.iter, ast.List) and ktxt in [norm(e) for e in s0.iter.elts]:
+                            if isinstance(s0.iter, (ast.List, ast.Tuple)) and ktxt in [norm(e) for e in s0.iter.elts]:
                                 ok, why = True, f'key stored by the literal-list loop at line {s0.lineno}'
-                            if my_loop is not None and norm(s0.iter) == norm(my_loop.iter):
-                                ok, why = True, f'stored for every key of {norm(s0.iter)} by the loop at line {s0.lineno}'
+                            if mine is not None and mine[1] is not None and mi0 is not None and mi0[0] == mine[1][0]:
+                                ok, why = True, f'stored for every key of {mi0[0]} by the loop at line {s0.lineno}'
+                            elif mine is not None and mine[1] is None and mi0 is None and norm(s0.iter) == norm(mine[2]):
+                                ok, why = True, f'stored for every element of {norm(s0.iter)[:40]} by the loop at line {s0.lineno}'
                     # loop over the map's own keys
-                    for a in ancestors(x):
-                        if isinstance(a, ast.For) and norm(a.target) == ktxt and btxt in norm(a.iter):
-                            ok, why = True, f'iterating the map\'s own keys ({norm(a.iter)})'
-                        if isinstance(a, ast.For) and norm(a.target) == ktxt and isinstance(a.iter, ast.List):
-                            ok, why = True, 'iterating a literal key list stored by the producer just above'
+                    if mine is not None and mine[1] is not None and mine[1][0] == btxt:
+                        ok, why = True, f'iterating the map\'s own keys ({norm(mine[2])})'
+                    if mine is not None and mine[1] is None and isinstance(mine[2], (ast.List, ast.Tuple)):
+                        ok, why = True, 'iterating a literal key list stored by the producer just above'
                 if not ok and isinstance(base, ast.Name) and base.id in fi.params:
-                    for a in ancestors(x):
-                        if isinstance(a, ast.For) and norm(a.target) == ktxt and btxt in norm(a.iter):
-                            ok, why = True, f'iterating the map\'s own keys ({norm(a.iter)})'
+                    mine = _governing(x, ktxt)
+                    if mine is not None and mine[1] is not None and mine[1][0] == btxt:
+                        ok, why = True, f'iterating the map\'s own keys ({norm(mine[2])})'
                 if not ok and isinstance(base, ast.Name):
                     # a map returned by a helper that stores the key on every path (gse nominal profile)
                     d = single_def_value(fi.node, base.id)
@@ -370,6 +683,49 @@ def rule_reads(ctx, groups):
                        (f'`{btxt}` only contains {ktxt} under some configurations (e.g. with the species switched '
                         f'off); this read is unguarded and raises KeyError for the others'), line=x.lineno)
     ctx.floor('C11-R2', n, 20, 'species-map key reads')
+
+
+def _only_enabled_keys(prog, fi, it: ast.AST, groups) -> str | None:
+    """The iterable `it` walks a mapping produced by a repository function (directly, `f(x).items()`, or through a
+    single-definition local) that puts a species into the mapping it returns only under a fact implying that
+    species' switch: then every key it yields is enabled.  Returns the reason, or None when that cannot be shown."""
+    im = iterated_mapping(it)
+    if im is None:
+        return None
+    m = im[0]
+    if isinstance(m, ast.Name):
+        m = single_def_value(fi.node, m.id)
+    if not isinstance(m, ast.Call):
+        return None
+    callee = resolve_call(prog, fi, m)
+    if callee is None:
+        return None
+    rets = [r.value for r in walk_no_nested(callee.node) if isinstance(r, ast.Return)]
+    if not rets or not all(isinstance(r, ast.Name) for r in rets) or len({r.id for r in rets}) != 1:
+        return None
+    rname = rets[0].id
+    if rname in callee.params:
+        return None
+    n = 0
+    for x in walk_no_nested(callee.node):
+        # anything that fills the map other than a store under a Species.K key cannot be judged here
+        if isinstance(x, ast.Call) and isinstance(x.func, ast.Attribute) and norm(x.func.value) == rname \
+                and x.func.attr in ('update', 'setdefault', '__setitem__'):
+            return None
+    for t, st, how in stores_to(callee.node):
+        if isinstance(t, ast.Name) and t.id == rname:
+            v = getattr(st, 'value', None)
+            if not (isinstance(v, ast.Call) and not v.args and not v.keywords):
+                return None     # must start empty: `R = SpeciesValues[...]()` / `{}`-like constructor without content
+        if isinstance(t, ast.Subscript) and norm(t.value) == rname:
+            if not (isinstance(t.slice, ast.Attribute) and norm(t.slice.value) == 'Species'):
+                return None
+            if species_enabled_by(facts_at(callee.node, st), t.slice.attr, groups) is None:
+                return None
+            n += 1
+    if not n:
+        return None
+    return f'the key walks the result of {callee.name}, which inserts each of its {n} species only when it is enabled'
 
 
 # ---------------------------------------------------------------- R3 -----
@@ -414,11 +770,20 @@ def rule_stores(ctx, groups):
                                 and isinstance(tt.ops[0], ast.In) and norm(tt.left) == keyvar \
                                 and 'enabled_species' in norm(tt.comparators[0]):
                             g = norm(tt)
+                    # the key is already in the map - nothing that was off can get in - when the value reads the
+                    # map at that key, or when the key variable walks the map's own keys (`for k in m`, `m.keys()`,
+                    # `for k, v in m.items()`, possibly through list()/sorted())
                     restore = val is not None and f'{norm(t.value)}[{keyvar}]' in norm(val)
-                    zero_slice = False
-                    ok = g is not None or restore
+                    gov = _governing(st, keyvar)
+                    own_keys = gov is not None and gov[1] is not None and gov[1][0] == norm(t.value)
+                    filtered = None
+                    if g is None and not restore and not own_keys and gov is not None and gov[1] is not None:
+                        filtered = _only_enabled_keys(prog, fi, gov[2], groups)
+                    ok = g is not None or restore or own_keys or filtered is not None
                     ctx.ob('C11-R3', fi, f'{norm(t)} = {norm(val)[:40] if val is not None else ""}', ok,
-                           (f'guarded by `{g}`' if g else 'rewrites a key the map already contains') if ok else
+                           (f'guarded by `{g}`' if g else 'rewrites a key the map already contains' if restore else
+                            f'the key walks the map\'s own keys ({norm(gov[2])[:40]}): it is already present' if own_keys else
+                            filtered) if ok else
                            'a species taken from a variable is stored without testing that it is enabled', line=st.lineno)
                     continue
                 g = species_enabled_by(atoms, K, groups)
